@@ -133,7 +133,16 @@ fn evaluator_case(run: &Run, case_seed: u64) {
                 Err(p) => run.violation(&format!("C15|evaluate_all|panic|{}", p.file()), &format!("evaluate_all panicked under a {threads}-thread pool: {} at {}", p.message, p.location), art(p.to_json())),
                 Ok(r) => match (&r, &best) {
                     (InsertionResult::Success(s), Some(b)) => {
-                        if s.cost != b.0 {
+                        // equal up to floating point noise: with fractional profile scales an insertion delta that is
+                        // mathematically zero comes out as +-1e-14, and such a value can sit on either side of the
+                        // evaluator's pruning comparison (thorough seed 13 showed -1.4e-14 vs -2.8e-14)
+                        let (cv, bv) = (cost_vec(&s.cost), cost_vec(&b.0));
+                        let n = cv.len().max(bv.len());
+                        let same = (0..n).all(|i| {
+                            let (x, y) = (cv.get(i).copied().unwrap_or(0.), bv.get(i).copied().unwrap_or(0.));
+                            (x - y).abs() <= 1e-9 * x.abs().max(y.abs()).max(1.0)
+                        });
+                        if !same {
                             let dir = if s.cost > b.0 { "worse-than-sequential-minimum" } else { "better-than-sequential-minimum" };
                             run.violation(
                                 &format!("C15|evaluate_all|cost-differs|{dir}"),
@@ -221,7 +230,7 @@ fn main() {
     );
     run.assume("metric routing and the default objective list (activity-level estimates >= 0): the evaluator's pruning against the best known alternative is only claimed for those (DESIGN D10)");
     run.assume("evaluator clause: single-task jobs only (multi-task jobs are evaluated over randomly sampled task permutations, which is not deterministic selection)");
-    run.assume("cost vectors are compared with InsertionCost's own equality; identity of job/route is not compared because ties may resolve differently");
+    run.assume("cost vectors are compared component-wise within 1e-9 relative (floating point noise of mathematically zero deltas); identity of job/route is not compared because ties may resolve differently");
     if let Some(path) = run.replay.clone() {
         let doc: Value = serde_json::from_str(&std::fs::read_to_string(&path).unwrap_or_default()).unwrap_or(Value::Null);
         let a = &doc["artefact"];
